@@ -330,6 +330,25 @@ def r6_997_counter(ctx):
     vals = _seg_values(f, 'isa_seg')
     ok = 13 in vals and path_of(vals[13]) == 'self.isa_control_num'
     yield Ob('error_997:error_997_visitor.visit_root_pre ISA13 = isa_control_num', ok, ctx.floc(f), '' if ok else 'ISA13 is %s' % (norm(vals[13]) if 13 in vals else None))
+    # a hand-kept counter is reset where the header that opens its scope is written, and nowhere else
+    cls = ctx.cls('error_997', 'error_997_visitor')
+    writes_header = {}
+    for fdef in cls.body:
+        if isinstance(fdef, ast.FunctionDef):
+            for c in A.calls_in(fdef):
+                if A.call_target(c)[1] == 'Segment' and c.args:
+                    a0 = c.args[0]
+                    while isinstance(a0, ast.BinOp):
+                        a0 = a0.left
+                    if A.is_str(a0):
+                        writes_header.setdefault(a0.value.split('*')[0], set()).add(fdef.name)
+    for counter, header in (('st_loop_count', 'GS'), ('seg_count', 'ST')):
+        sites = sorted({fdef.name for fdef in cls.body if isinstance(fdef, ast.FunctionDef) and fdef.name != '__init__'
+                        for st in ast.walk(fdef) if isinstance(st, ast.Assign) and path_of(st.targets[0]) == 'self.' + counter})
+        want = sorted(writes_header.get(header, ()))
+        ok = sites == want and len(want) == 1
+        yield Ob('error_997:error_997_visitor %s is reset exactly where %s is written' % (counter, header), ok, 'pyx12/error_997.py',
+                 '' if ok else '%s is reset in %s, the %s segment is written in %s: the trailer count would not cover the sets/segments written under that header' % (counter, sites, header, want))
     # st_loop_count incremented once per ST
     f = ctx.func('error_997', 'error_997_visitor.visit_gs_pre')
     incs = [n for n in ast.walk(f) if isinstance(n, ast.AugAssign) and path_of(n.target) == 'self.st_loop_count']
@@ -343,5 +362,5 @@ RULES = [
     Rule('C06.R3', 'input text reaches acknowledgement segments only through a delimiter sanitiser (taint)', r3_echo_taint, floor=20),
     Rule('C06.R4', 'no partial output: guarded dict lookups, guarded None dereferences in the visitors', r4_no_partial_output, floor=10),
     Rule('C06.R5', 'set control numbers: incremented once per group, one format', r5_st_control, floor=4),
-    Rule('C06.R6', '997 hand-kept counters: ST resets, SE = count+1, GE/IEA from loop counters', r6_997_counter, floor=6),
+    Rule('C06.R6', '997 hand-kept counters: ST resets, SE = count+1, GE/IEA from loop counters', r6_997_counter, floor=8),
 ]
